@@ -15,6 +15,109 @@ def pkey (f : List String) : Bytes :=
   | [st, r, h, t, c, s] => Gen.Keys.rollappPacketKey (status! st) (hex! r) (nat! h) (ptype! t) (hex! c) (nat! s)
   | _ => []
 
+/-- seven decimal tokens → calendar fields -/
+def timeF! (f : List String) : TimeF :=
+  match f with
+  | [y, mo, d, h, mi, s, ns] => ⟨nat! y, nat! mo, nat! d, nat! h, nat! mi, nat! s, nat! ns⟩
+  | _ => ⟨0, 0, 0, 0, 0, 0, 0⟩
+
+/-- the op line carries calendar fields; a tuple that is not a calendar date (Go's `time.Date` would
+    normalise it to another one) is answered `invalid-date` by both sides (proleptic Gregorian rule) -/
+def validDate (t : TimeF) : Bool :=
+  let leap := (t.Y % 4 == 0 && t.Y % 100 != 0) || t.Y % 400 == 0
+  let dim := if t.M == 2 then (if leap then 29 else 28)
+    else if t.M == 4 || t.M == 6 || t.M == 9 || t.M == 11 then 30 else 31
+  1 ≤ t.M && t.M ≤ 12 && 1 ≤ t.D && t.D ≤ dim && t.h < 24 && t.m < 60 && t.s < 60 && t.ns < 1000000000
+
+def atype! (s : String) : AssetType := if s = "2" then .alias else .name
+
+def int! (s : String) : Int :=
+  if s.startsWith "-" then -((nat! (s.drop 1).toString : Nat) : Int) else ((nat! s : Nat) : Int)
+
+def bool! (s : String) : Bool := s = "1"
+
+/-- comma separated hex list; "-" = empty list -/
+def hexList! (s : String) : List Bytes := if s = "-" then [] else (s.splitOn ",").map hex!
+
+/-- the hub's address verifier (app/params/config.go): account addresses are 20 or 32 bytes; the real
+    key builders decode the owner from bech32 and fail otherwise -/
+def okOwner (a : Bytes) : Bool := a.length == 20 || a.length == 32
+
+def inO (rg : Bytes × Option Bytes) (k : Bytes) : String := toString (inRangeO rg.1 rg.2 k)
+
+/-- the lockup scans of iterator.go: bounds from the first group of tokens, one stored entry from the second -/
+def lkscan (f : List String) : String :=
+  match f with
+  | "matured" :: y :: mo :: d :: h :: mi :: s :: ns :: "|" :: rest =>
+      let T := timeF! [y, mo, d, h, mi, s, ns]
+      let t := timeF! (rest.take 7)
+      let id := nat! ((rest.drop 7).headD "0")
+      if validDate T && validDate t then
+        inO (iterBeforeTime (lkFamilyPrefix true 11 []) T) (lockRefStoreKey true (combineKeys [[11], lkTimeKey t]) id)
+      else "invalid-date"
+  | "accbefore" :: a :: y :: mo :: d :: h :: mi :: s :: ns :: "|" :: b :: rest =>
+      let T := timeF! [y, mo, d, h, mi, s, ns]
+      let t := timeF! (rest.take 7)
+      let id := nat! ((rest.drop 7).headD "0")
+      if !okOwner (hex! b) then "err" else
+      if validDate T && validDate t then
+        inO (iterBeforeTime (lkFamilyPrefix true 12 [hex! a]) T)
+          (lockRefStoreKey true (combineKeys [[12], hex! b, lkTimeKey t]) id)
+      else "invalid-date"
+  | "denafter" :: a :: y :: mo :: d :: h :: mi :: s :: ns :: "|" :: b :: rest =>
+      let T := timeF! [y, mo, d, h, mi, s, ns]
+      let t := timeF! (rest.take 7)
+      let id := nat! ((rest.drop 7).headD "0")
+      if validDate T && validDate t then
+        inO (iterAfterTime (lkFamilyPrefix true 13 [hex! a]) T)
+          (lockRefStoreKey true (combineKeys [[13], hex! b, lkTimeKey t]) id)
+      else "invalid-date"
+  | ["denlonger", u, a, d, "|", b, d', id] =>
+      inO (iterLongerDuration (lkFamilyPrefix (bool! u) 9 [hex! a]) (int! d))
+        (lockRefStoreKey (bool! u) (combineKeys [[9], hex! b, lkDurationKey (int! d')]) (nat! id))
+  | ["accall", u, a, "|", b, d', id] =>
+      if !okOwner (hex! b) then "err" else
+      inO (iterPrefix (lkFamilyPrefix (bool! u) 8 [hex! a]))
+        (lockRefStoreKey (bool! u) (combineKeys [[8], hex! b, lkDurationKey (int! d')]) (nat! id))
+  | ["accdur", u, a, d, "|", b, d', id] =>
+      if !okOwner (hex! b) then "err" else
+      inO (iterDuration (lkFamilyPrefix (bool! u) 8 [hex! a]) (int! d))
+        (lockRefStoreKey (bool! u) (combineKeys [[8], hex! b, lkDurationKey (int! d')]) (nat! id))
+  | ["accshorter", u, a, d, "|", b, d', id] =>
+      if !okOwner (hex! b) then "err" else
+      inO (iterShorterDuration (lkFamilyPrefix (bool! u) 8 [hex! a]) (int! d))
+        (lockRefStoreKey (bool! u) (combineKeys [[8], hex! b, lkDurationKey (int! d')]) (nat! id))
+  | ["denall", u, a, "|", b, d', id] =>
+      inO (iterPrefix (lkFamilyPrefix (bool! u) 9 [hex! a]))
+        (lockRefStoreKey (bool! u) (combineKeys [[9], hex! b, lkDurationKey (int! d')]) (nat! id))
+  | _ => "bad-op"
+
+/-- dnkey <family> <component hex>: through the generated translations of the x/dymns key builders -/
+def dnkey (fam : String) (c : Bytes) : Bytes :=
+  match fam with
+  | "0" => Gen.Keys.dymNameKey c
+  | "1" => Gen.Keys.dymNamesOwnedByAccountRvlKey c
+  | "2" => Gen.Keys.configuredAddressToDymNamesIncludeRvlKey c
+  | "3" => Gen.Keys.fallbackAddressToDymNamesIncludeRvlKey c
+  | "4" => Gen.Keys.sellOrderKey c .name
+  | "5" => Gen.Keys.sellOrderKey c .alias
+  | "6" => Gen.Keys.keyCountBuyOrders
+  | "7" => Gen.Keys.buyOrderKey c
+  | "8" => Gen.Keys.buyerToOrderIdsRvlKey c
+  | "9" => Gen.Keys.dymNameToBuyOrderIdsRvlKey c
+  | "10" => Gen.Keys.aliasToBuyOrderIdsRvlKey c
+  | "11" => Gen.Keys.rollAppIdToAliasesKey c
+  | _ => Gen.Keys.aliasToRollAppIdRvlKey c
+
+def dnKeyOf (fam : String) (c : Bytes) : DymnsKey :=
+  match fam with
+  | "0" => .dymName c | "1" => .ownedBy c | "2" => .cfgAddr c | "3" => .fallback c
+  | "4" => .sellOrder c .name | "5" => .sellOrder c .alias | "6" => .countBuyOrders | "7" => .buyOrder c
+  | "8" => .buyer c | "9" => .nameToBuyOrders c | "10" => .aliasToBuyOrders c | "11" => .rollappToAliases c
+  | _ => .aliasToRollapp c
+
+def optHex (o : Option Bytes) : String := match o with | none => "nil" | some b => toHexD b
+
 def cmp (a b : Bytes) : String :=
   if lexLt a b then "-1" else if lexLt b a then "1" else "0"
 
@@ -50,6 +153,65 @@ def step (_ : Unit) (f : List String) : Unit × String :=
   | ["seqscan", r, r', a, st] =>
       toString (isPrefix (Gen.Keys.sequencersByRollappKey (hex! r))
         (Gen.Keys.sequencerByRollappByStatusKey (hex! r') (hex! a) (if st = "1" then .bonded else .unbonded)))
+  | "tfmt" :: _off :: rest =>
+      let t := timeF! rest
+      if validDate t then toHexD (fmtTime t) else "invalid-date"
+  | "tcmp" :: y :: mo :: d :: h :: mi :: s :: ns :: rest =>
+      let a := timeF! [y, mo, d, h, mi, s, ns]
+      let b := timeF! rest
+      if validDate a && validDate b then
+        s!"{cmp (Gen.Keys.noticeQueueByTimeKey a) (Gen.Keys.noticeQueueByTimeKey b)} {cmp a.fields b.fields}"
+      else "invalid-date"
+  | "nqkey" :: a :: rest =>
+      let t := timeF! rest
+      if validDate t then toHexD (Gen.Keys.noticeQueueBySeqTimeKey (hex! a) t) else "invalid-date"
+  | "nqscan" :: y :: mo :: d :: h :: mi :: s :: ns :: a :: rest =>
+      let T := timeF! [y, mo, d, h, mi, s, ns]
+      let t := timeF! rest
+      if validDate T && validDate t then
+        let rg := noticeQueueRange T
+        toString (inRangeO rg.1 rg.2 (Gen.Keys.noticeQueueBySeqTimeKey (hex! a) t))
+      else "invalid-date"
+  | ["nqother", y, mo, d, h, mi, s, ns, k] =>
+      let T := timeF! [y, mo, d, h, mi, s, ns]
+      if validDate T then
+        let rg := noticeQueueRange T
+        toString (inRangeO rg.1 rg.2 (hex! k))
+      else "invalid-date"
+  | ["pend", p] => optHex (prefixEnd (hex! p))
+  | ["sqkeys", a] =>
+      s!"{toHexD (Gen.Keys.sequencerKey (hex! a))} {toHexD (Gen.Keys.proposerByRollappKey (hex! a))} {toHexD (Gen.Keys.successorByRollappKey (hex! a))}"
+  | ["dec", n] => toHexD (decStr (nat! n))
+  | ["pu64", a] => (match parseU64 (hex! a) with | some v => s!"ok {v}" | none => "err")
+  | ["boid", t, n] => (match createBuyOrderId (atype! t) (nat! n) with | some b => toHexD b | none => "panic")
+  | ["bovalid", a] =>
+      let v := toString (isValidBuyOrderId (hex! a))
+      (match parseBuyOrderId (hex! a) with
+       | none => v ++ " invalid invalid"
+       | some (.name, _) => v ++ " pass mismatch"
+       | some (.alias, _) => v ++ " mismatch pass")
+  | ["irodenom", r] => toHexD (Gen.Keys.iRODenom (hex! r))
+  | ["irofrom", d] => optHex (rollappIDFromIRODenom (hex! d))
+  | ["plankey", n] => toHexD (Gen.Keys.planKey (decStr (nat! n)))
+  | ["planrkey", r] => toHexD (Gen.Keys.plansByRollappKey (hex! r))
+  | "lkcomb" :: parts => toHexD (combineKeys (parts.map hex!))
+  | "lktime" :: rest =>
+      let t := timeF! rest
+      if validDate t then toHexD (lkTimeKey t) else "invalid-date"
+  | ["lkdur", d] => toHexD (lkDurationKey (int! d))
+  | "lkrefs" :: u :: owner :: dur :: y :: mo :: d :: h :: mi :: sc :: ns :: dns :: id :: [] =>
+      let t := timeF! [y, mo, d, h, mi, sc, ns]
+      let l : LockK := ⟨hex! owner, int! dur, t, hexList! dns⟩
+      if !validDate t then "invalid-date" else if !okOwner l.owner then "err" else
+        let ks := if bool! u then lockRefKeys l else durationLockRefKeys l
+        ",".intercalate (ks.map fun k => toHexD (lockRefStoreKey (bool! u) k (nat! id)))
+  | "lkscan" :: rest => lkscan rest
+  | ["dnkey", fam, c] => toHexD (dnkey fam (hex! c))
+  | ["dncmp", fa, ca, fb, cb] =>
+      -- equality of two keys, and whether a whole-family scan with a's family prefix returns b's key
+      let a := dnKeyOf fa (hex! ca)
+      let b := dnKeyOf fb (hex! cb)
+      s!"{decide (a.bytes = b.bytes)} {isPrefix a.familyPrefix b.bytes}"
   | _ => "bad-op")
 
 def drv : Drv := { σ := Unit, init := (), step := step }
